@@ -73,8 +73,9 @@ def check_one(case, ctx, deep):
         if n <= 7 and (deep or n <= 4):
             subsets = range(1 << n)
         else:
-            subsets = {0, ref.full_o} | {1 << i for i in range(n)} | {c[0] for c in cs}
             rnd = gen._random.Random(repr((case['r'], ctx.seed)))
+            singles = range(n) if n <= 40 else sorted({0, n - 1, 59, 60, 63, 64} & set(range(n)) | set(rnd.sample(range(n), 12)))
+            subsets = {0, ref.full_o} | {1 << i for i in singles} | set(rnd.sample([c[0] for c in cs], min(len(cs), 24)))
             subsets |= {rnd.getrandbits(n) for _ in range(8)}
             subsets = sorted(subsets)
         for A in subsets:
@@ -85,7 +86,8 @@ def check_one(case, ctx, deep):
             gotm = [(maps.omask(e), maps.pmask(i)) for e, i in got]
             ctx.check(len(set(gotm)) == len(gotm) and set(gotm) == want, 'context.neighbors', plain,
                       lambda: f'neighbors({list(labels)}) = {got!r}, want extents {sorted(positions(w[0]) for w in want)}')
-            raw = ctx.call('context.neighbors(raw)', plain, context.neighbors, iter(labels[::-1]), raw=True)
+            rep = labels[::-1] + labels[:2]      # same set: reversed, with repeats, as a one-shot iterator
+            raw = ctx.call('context.neighbors(raw)', plain, context.neighbors, iter(rep), raw=True)
             rawm = [(maps.omask(e.members()), maps.pmask(i.members())) for e, i in raw]
             ctx.check(sorted(rawm) == sorted(gotm), 'context.neighbors(raw)', plain,
                       lambda: f'raw form differs for {list(labels)}: {rawm} vs {gotm}')
